@@ -18,9 +18,17 @@ func init() {
 		Explanation: "Decides: (1) OrderByWeight's comparator: less(a,b) ⇔ weight(a) > weight(b), or equal weights and name(a) > name(b); " +
 			"(2) Provisioner.NewScheduler sorts the very slice it then hands to NewTopology and scheduler.NewScheduler (only an order-preserving filter before, nothing after), and the scheduler builds its templates with an order-preserving FilterMap over that slice; " +
 			"(3) first-success-wins in the three parallel candidate evaluations: every write to a captured 'chosen' variable happens with the mutex held, only when i < idx, and is followed by idx = i; " +
-			"(4) the instance types sent to the provider are lo.Slice of the direct result of OrderByPrice (Truncate and ToNodeClaim), and OrderByPrice's comparator is min-over-offerings(Available ∧ IsCompatible) on each side compared with <.",
-		NotCovered: []string{"sort.Slice's own correctness and stability", "fairness under price ties", "floating point prices (NaN)"},
-		Rules:      c19Rules,
+			"(4) the instance types sent to the provider are lo.Slice of the direct result of OrderByPrice (Truncate and ToNodeClaim), and OrderByPrice's comparator is min-over-offerings(Available ∧ IsCompatible) on each side compared with <; " +
+			"(5) the parallel primitive: parallelizeUntil queues the pieces in ascending index order with its only send, returns only after WaitGroup.Wait, and a worker reports Done only when it leaves (so a success at index i implies every heavier template was evaluated to the end before the winner is read); piece i is evaluated against nodeClaimTemplates[i]; " +
+			"(6) a template is passed over (closure continues with nothing recorded) only if CanAdd failed, no instance type fits the pool's headroom, or the pool's node-count limit is present and used up; filterByRemainingResources keeps a type iff no resource of its capacity exceeds the headroom; a NodePool is left out of the templates only if it has no compatible instance type; " +
+			"(7) whenever a candidate wins (new or in-flight NodeClaim) the requirements and instance-type options recorded with it are the ones its own CanAdd returned, and the winning new NodeClaim is appended to the scheduler's new NodeClaims; " +
+			"(8) ToNodeClaim of a dynamic pool always builds the instance-type requirement from the price-ordered truncated list, adds it to the template's requirements before they are serialized, and the serialization filter drops only simulation-only keys.",
+		NotCovered: []string{"sort.Slice's own correctness and stability", "fairness under price ties", "floating point prices (NaN)",
+			"whether a template's requirements describe its NodePool correctly (NewNodeClaimTemplate: pool requirements / labels) — compatibility is C01/C13's subject",
+			"availability / compatibility helpers of Offerings (Available, Compatible, HasCompatible) that decide which types are options at all, and price overlays that set Offering.Price: C19 ranks the options it is given by the prices it is given",
+			"progress only: a worker that stops after a failed piece, fewer workers or pieces than requested, lost error messages",
+			"a deferred WaitGroup.Wait in parallelizeUntil would be reported by C19.PAR2 although equivalent"},
+		Rules: c19Rules,
 	})
 }
 
@@ -57,7 +65,173 @@ func c19Rules(tier string) []Rule {
 		Must: []string{`^mapupdate \$0\.remainingResources\[.*NodePoolName\] = sched\.subtractMax\(\$0\.remainingResources\[.*NodePoolName\], .*InstanceTypeOptions\)`}},
 		core.Custom{ID: "C19.PROV6", Kind: "PROV", Run: subtractMaxRows},
 		NOREACH{ID: "C19.NR1", Fn: "(*sched.Scheduler).addToNewNodeClaim", From: `^mapupdate \$0\.remainingResources\[.*NodePoolName\] = sched\.subtractMax\(`, Sink: `^call \(\*sched\.NodeClaim\)\.Add\(`})
+	rules = append(rules, c19SweepRules()...)
 	return rules
+}
+
+// c19SweepRules: facts found missing by the mutation sweep of the anchored files (triage of sweep/C19.missed.txt).
+func c19SweepRules() []Rule {
+	const (
+		par   = "sched.parallelizeUntil"
+		newCl = "@arg:(*sched.Scheduler).addToNewNodeClaim|^call sched\\.parallelizeUntil\\(|2"
+		inCl  = "@arg:(*sched.Scheduler).addToInflightNode|^call sched\\.parallelizeUntil\\(|2"
+		tplCl = "@arg:sched.NewScheduler|^call lo\\.FilterMap\\[\\*apis/v1\\.NodePool, \\*sched\\.NodeClaimTemplate\\]\\(|1"
+		tnc   = "(*sched.NodeClaimTemplate).ToNodeClaim"
+
+		newCan = `\(\*sched\.NodeClaim\)\.CanAdd\(sched\.NewNodeClaim\(.*\)#4 == nil$`
+		inCan  = `\(\*sched\.NodeClaim\)\.CanAdd\(\^\$0\.newNodeClaims\[\$0\], .*\)#4 == nil$`
+		lost   = `-^\$0 < \^&local<int>$`
+		head   = `\^\$0\.remainingResources\[.*NodePoolName\]#0`
+		itReq  = `scheduling\.NewRequirementWithFlexibility\("node\.kubernetes\.io/instance-type", "In", \(scheduling\.Requirements\)\.Get\(\$0\.Requirements, "node\.kubernetes\.io/instance-type"\)\.MinValues, lo\.Map\[\*cloudprovider\.InstanceType, string\]\(lo\.Slice\[\*cloudprovider\.InstanceType, cloudprovider\.InstanceTypes\]\(`
+		addReq = `^call \(scheduling\.Requirements\)\.Add\(\$0\.Requirements, `
+		itCap  = `\$0\[.*\]\.Capacity\[next\(range\(\$1\)\)#1\]`
+		itRem  = `next\(range\(\$1\)\)#2`
+		newFn  = "(*sched.Scheduler).addToNewNodeClaim"
+	)
+	// a captured result variable renders as `&local<T>` when it has several stores and as the stored value when it has one
+	won := func(typ, res string) string {
+		return `^store \^(&local<` + typ + `>|\(\*sched\.NodeClaim\)\.CanAdd\(.*\)#` + res + `) = \(\*sched\.NodeClaim\)\.CanAdd\(.*\)#` + res + `$`
+	}
+	return []Rule{
+		// ---- (5) the parallel evaluation itself: "success at index i ⇒ every index below i was evaluated to the end"
+		// rests on the pieces being queued in ascending index order and on parallelizeUntil returning only after every
+		// worker has left (the winner is read right after it returns)
+		core.Custom{ID: "C19.PAR1", Kind: "PROV", Run: c19QueueOrder},
+		DOM{ID: "C19.PAR2", Fn: par, Sink: `^return`, Shallow: true, Gates: gates(G(`instr:^call \(\*sync\.WaitGroup\)\.Wait\(`)),
+			Note: "the candidate evaluation is over when parallelizeUntil returns: the winner is not read while a heavier template is still being evaluated"},
+		core.Custom{ID: "C19.PAR3", Kind: "POST", Run: c19WorkerDone},
+
+		// ---- (6) a template is passed over only for a reason that makes its pool infeasible for the pod
+		MPT{ID: "C19.MPT1", Fn: newCl, Ret: core.RetTrue, Min: 3, Gates: gates(
+			G(`-^`+newCan, `-^len\(sched\.filterByRemainingResources\(.*\.InstanceTypeOptions, `+head+`\)\)>=1$`, `+^\(\*apim/api/resource\.Quantity\)\.IsZero\(`+head+`\[utils/resources\.Node\]#0\)$`),
+			G(`-^`+newCan, `-^len\(sched\.filterByRemainingResources\(.*\.InstanceTypeOptions, `+head+`\)\)>=1$`, `+^`+head+`\[utils/resources\.Node\]#1$`),
+		), Note: "evaluation moves on to lighter pools (nothing recorded for this one) only if CanAdd failed, no instance type fits the pool's headroom, or the pool has a node-count limit that is used up"},
+		// the same fact as C03.CMP1 (an instance type is kept iff no resource of its capacity exceeds the headroom), with the
+		// comparison accepted from either operand: dropping a type that fits makes a feasible pool look infeasible
+		FLAG{ID: "C19.CMP1", Fn: "sched.filterByRemainingResources", Sink: `^call append\(`,
+			Lit: `+^(0 < utils/resources\.Cmp\(` + itCap + `, ` + itRem + `\)|utils/resources\.Cmp\(` + itRem + `, ` + itCap + `\) < 0)$`},
+		MPT{ID: "C19.MPT2", Fn: tplCl, Ret: core.RetFalse, Gates: gates(
+			G(`-^len\(sched\.NewNodeClaimTemplate\(\$0\)\.InstanceTypeOptions\)>=1$`),
+		), Note: "a NodePool is left out of the weight-ordered templates only if no instance type is compatible with it"},
+
+		// ---- (7) what is handed to the winner's Add is the winner's own evaluation (not a lighter template's that
+		// finished earlier): requirements and instance-type options are overwritten whenever the winner is
+		POST{ID: "C19.POST5", Fn: newCl, FromLit: `+^` + newCan, Must: []string{won(`\[\]\*cloudprovider\.InstanceType`, "1")}, Excuse: []string{lost},
+			Note: "the instance-type options recorded with a winning template are the ones its own CanAdd returned"},
+		POST{ID: "C19.POST6", Fn: newCl, FromLit: `+^` + newCan, Must: []string{won(`scheduling\.Requirements`, "0")}, Excuse: []string{lost},
+			Note: "the requirements recorded with a winning template are the ones its own CanAdd returned"},
+		POST{ID: "C19.POST7", Fn: inCl, FromLit: `+^` + inCan, Must: []string{won(`\[\]\*cloudprovider\.InstanceType`, "1")}, Excuse: []string{lost}},
+		POST{ID: "C19.POST8", Fn: inCl, FromLit: `+^` + inCan, Must: []string{won(`scheduling\.Requirements`, "0")}, Excuse: []string{lost}},
+
+		// the candidate NodeClaim of piece i is built from template i (the index that is compared with the winning index is
+		// the template's position in the weight order)
+		core.Custom{ID: "C19.PROV8", Kind: "PROV", Run: func(w *core.World, id string) []core.Result {
+			return core.ArgProvenance(w, id, newFn, `^call sched\.NewNodeClaim\(`, 0, `^\^\$0\.nodeClaimTemplates\[\$0\]$`, "the candidate of work piece i is built from nodeClaimTemplates[i]")
+		}},
+		// the winner becomes one of the scheduler's new NodeClaims: the charge on its pool's headroom stands for a claim that
+		// is created, and later pods of the pass can join it instead of opening further claims against a shrinking headroom
+		POST{ID: "C19.POST11", Fn: newFn, From: `^call \(\*sched\.NodeClaim\)\.Add\(`, Shallow: true,
+			Must: []string{`^store \$0\.newNodeClaims = append\(\$0\.newNodeClaims, &local<\[1\]\*sched\.NodeClaim>\[:\]\)$`}},
+
+		// ---- (8) the price-ordered, truncated list is what the NodeClaim of a dynamic pool carries to the provider
+		POST{ID: "C19.POST9", Fn: tnc, FromLit: `-^\$0\.IsStaticNodeClaim$`, Must: []string{`^call ` + itReq},
+			Note: "for a dynamic NodePool the instance-type requirement is always rebuilt from the price-ordered, truncated options"},
+		POST{ID: "C19.POST10", Fn: tnc, From: `^call ` + itReq, Must: []string{addReq},
+			Note: "…and intersected into the template's requirements"},
+		DOM{ID: "C19.DOM4", Fn: tnc, Sink: `^call \(scheduling\.Requirements\)\.Values\(\$0\.Requirements\)$`, Gates: gates(
+			G(`+^\$0\.IsStaticNodeClaim$`, `instr:`+addReq),
+		), Note: "the requirements are serialized after the instance-type requirement was added"},
+		core.Custom{ID: "C19.PROV7", Kind: "PROV", Run: func(w *core.World, id string) []core.Result {
+			rs := core.InstrPresent(w, id, "PROV", tnc, `^store &local<apis/v1\.NodeClaim>\.Spec\.Requirements = \(scheduling\.Requirements\)\.NodeSelectorRequirements\(scheduling\.NewRequirements\(lo\.Filter\[\*scheduling\.Requirement, \[\]\*scheduling\.Requirement\]\(…, …\)\)\)$`, 1,
+				"Spec.Requirements = serialization of the kept requirements")
+			rs = append(rs, core.InstrPresent(w, id, "PROV", tnc, `^call lo\.Filter\[\*scheduling\.Requirement, \[\]\*scheduling\.Requirement\]\(\(scheduling\.Requirements\)\.Values\(\$0\.Requirements\), fn:`, 1, "kept from all of the template's requirements")...)
+			const flt = "@arg:" + tnc + `|^call lo\.Filter\[\*scheduling\.Requirement, \[\]\*scheduling\.Requirement\]\(|1`
+			rs = append(rs, core.InstrPresent(w, id, "PROV", flt, `^return !\(apim/util/sets\.Set\[string\]\)\.Has\(sched\.schedulingSimulationKeys, \$0\.Key\)$`, 1,
+				"only simulation-only keys are dropped: the instance-type requirement reaches the NodeClaim")...)
+			return rs
+		}},
+	}
+}
+
+// C19.PAR1: the work pieces are queued in ascending index order (0, 1, 2, …) by the only send of parallelizeUntil.
+// Workers take pieces in queue order and finish every piece they took, so when a worker stops on a success at index i
+// every index below i has been taken and is evaluated to the end before parallelizeUntil returns; any other order lets
+// a lighter template win without the heavier ones having been tried.
+func c19QueueOrder(w *core.World, id string) []core.Result {
+	const par = "sched.parallelizeUntil"
+	fn := w.Fn(par)
+	if fn == nil {
+		return []core.Result{core.Anchor(id, "PROV", par)}
+	}
+	construct := "PROV:" + par + ":queue-order"
+	asc := regexp.MustCompile(`^send \S+ <- phi\(0\|\(phi↺ \+ 1\)\)$`)
+	sends := w.SitesOr(fn, regexp.MustCompile(`^send `), true, 1)
+	if len(sends) == 0 {
+		return []core.Result{core.Bad(id, "PROV", construct, w.Pos(fn.Pos()), "vacuous: no channel send found in parallelizeUntil (the work queue idiom was not recognised)")}
+	}
+	good := map[ssa.Instruction]bool{}
+	for _, s := range w.SitesOr(fn, asc, true, 1) {
+		good[s] = true
+	}
+	var out []core.Result
+	for _, s := range sends {
+		if !good[s] {
+			out = append(out, core.Bad(id, "PROV", construct, w.InstrPos(s), "work pieces are queued by `"+clipStr(w.RenderInstr(s), 100)+"`, not as the ascending loop index 0,1,2,…: a lighter template can be evaluated (and win) before a heavier one was taken"))
+		}
+	}
+	if len(out) == 0 {
+		out = append(out, core.OK(id, "PROV", construct, len(sends), "pieces are queued in ascending index order"))
+	}
+	return out
+}
+
+// C19.PAR3: a worker of parallelizeUntil reports completion (WaitGroup.Done) only when it leaves: deferred, or not
+// followed by another call of the work function. Otherwise Wait returns while a piece is still being evaluated.
+func c19WorkerDone(w *core.World, id string) []core.Result {
+	const par = "sched.parallelizeUntil"
+	fn := w.Fn(par)
+	if fn == nil {
+		return []core.Result{core.Anchor(id, "POST", par)}
+	}
+	construct := "POST:" + par + ":worker-done"
+	var out []core.Result
+	n := 0
+	work := regexp.MustCompile(`^call dyn:`)
+	for _, f := range core.WithClosures(fn) {
+		if f == fn {
+			continue
+		}
+		n += len(w.Sites(f, regexp.MustCompile(`^defer \(\*sync\.WaitGroup\)\.Done\(`), false))
+		for _, d := range w.Sites(f, regexp.MustCompile(`^call \(\*sync\.WaitGroup\)\.Done\(`), false) {
+			n++
+			reach := core.Reach(d.Block().Succs, nil)
+			for _, c := range w.Sites(f, work, false) {
+				if reach[c.Block()] || c.Block() == d.Block() && c19After(d, c) {
+					out = append(out, core.Bad(id, "POST", construct, w.InstrPos(d), "a worker signals WaitGroup.Done and can still evaluate a piece afterwards: parallelizeUntil may return (and the winner be read) while a heavier template is being evaluated"))
+				}
+			}
+		}
+	}
+	n += len(w.Sites(fn, regexp.MustCompile(`^call \(\*sync\.WaitGroup\)\.Go\(`), true))
+	if n == 0 {
+		out = append(out, core.Bad(id, "POST", construct, w.Pos(fn.Pos()), "vacuous: no WaitGroup.Done / WaitGroup.Go in the workers of parallelizeUntil (completion idiom not recognised)"))
+	}
+	if len(out) == 0 {
+		out = append(out, core.OK(id, "POST", construct, n, "workers report completion only when leaving"))
+	}
+	return out
+}
+
+func c19After(a, b ssa.Instruction) bool {
+	for _, in := range a.Block().Instrs {
+		if in == a {
+			return true
+		}
+		if in == b {
+			return false
+		}
+	}
+	return false
 }
 
 func c19RulesBase(tier string) []Rule {
